@@ -265,11 +265,14 @@ class Node(object):
             (s,) = a
             return canon(self._formula(tbl, s).volume())
         if which == "activation":
-            s, mass, fluence, exposure, rest = a
+            s, mass, fluence, exposure, rest = a[:5]
             act = self.module("periodictable.activation")
             env = act.ActivationEnvironment(fluence=fluence, Cd_ratio=70, fast_ratio=50, location="BT-2")
             sample = act.Sample(self._formula(tbl, s), mass)
-            sample.calculate_activation(env, exposure=exposure, rest_times=tuple(rest))
+            kw = {}
+            if len(a) > 5 and a[5] == "iaea":
+                kw["abundance"] = act.IAEA1987_isotopic_abundance
+            sample.calculate_activation(env, exposure=exposure, rest_times=tuple(rest), **kw)
             rows = []
             for k, v in sample.activity.items():
                 rows.append([canon(k), canon(v)])
@@ -344,11 +347,12 @@ class Node(object):
             return canon([f.neutron_sld(wavelength=4.75), f.xray_sld(energy=8.04), f.natural_mass_ratio(),
                           f.molecular_mass, sorted(str(k) for k in f.mass_fraction)])
         if which == "show_table":
-            s, mass = a
+            s, mass = a[:2]
             act = self.module("periodictable.activation")
             env = act.ActivationEnvironment(fluence=1e8, Cd_ratio=70, fast_ratio=50, location="BT-2")
             sample = act.Sample(self._formula(tbl, s), mass)
-            sample.calculate_activation(env, exposure=10, rest_times=(0, 1, 24), abundance=act.IAEA1987_isotopic_abundance)
+            source = act.NIST2001_isotopic_abundance if len(a) > 2 and a[2] == "nist" else act.IAEA1987_isotopic_abundance
+            sample.calculate_activation(env, exposure=10, rest_times=(0, 1, 24), abundance=source)
             return self._printed(sample.show_table, cutoff=0.0)
         raise ValueError(which)
 
